@@ -145,6 +145,7 @@ type done struct {
 	pan      interface{}
 	callSeq  int64
 	retSeq   int64
+	healthy  bool
 }
 
 // Storm is one pool scenario.
@@ -183,6 +184,15 @@ func NewStorm(k *fw.Case, jitter bool) (*Storm, error) {
 	if jitter {
 		l := &lcg{s: uint64(r.Int63())}
 		s.shadow.Jitter = func(point string) {
+			if point == "pool.cleanup" {
+				// between the end of a request's rules and the removal of its data: on correct code the
+				// instance is still exclusively held, so a delay here explores nothing; if the instance
+				// were handed back first, this is where the next request would get in
+				if l.next()%3 == 0 {
+					time.Sleep(time.Duration(50+l.next()%350) * time.Microsecond)
+				}
+				return
+			}
 			switch l.next() % 6 {
 			case 0:
 				runtime.Gosched()
@@ -262,7 +272,7 @@ func (s *Storm) fire(r *rand.Rand, c trace.Call, fail, boom bool, holdUs int64, 
 	id := atomic.AddInt64(&s.nextID, 1)
 	req := &Req{Id: id, Fail: fail, Boom: boom, HoldUs: holdUs}
 	resp := &Resp{Token: tokenOf(id)}
-	d := &done{id: id, call: c, resp: resp, injected: map[string]bool{}}
+	d := &done{id: id, call: c, resp: resp, injected: map[string]bool{}, healthy: !fail && !boom}
 	c.Data = map[string]interface{}{"Req": req, "Resp": resp}
 	if c.Method != trace.MPoolEM {
 		for _, kx := range keys {
@@ -294,6 +304,40 @@ func (s *Storm) checkIdentity(d *done, when string) {
 		}
 		if len(name) == 2 && name[0] == 'p' && !d.injected["k"+name[1:]] {
 			s.find("iso", m+"/stale-key", fmt.Sprintf("%s: request %d did not inject k%s but probe rule %s could read it (value %v)", m, d.id, name[1:], name, v), map[string]interface{}{"call": d.call})
+		}
+	}
+	// a healthy request through a method that runs the whole set must get all four of its own
+	// values back: if its Req/Resp vanished from the instance mid-flight (another request's
+	// clean-up) its rules fail instead
+	if d.healthy && when == "at return" {
+		var mustRun []string
+		switch d.call.Method {
+		case trace.MExecute, trace.MConcurrent, trace.MMix, trace.MInverse, trace.MPoolEM, trace.MPoolEMMulti, trace.MExecuteStop, trace.MMixStop:
+			mustRun = []string{"q1", "q2", "q3", "q4"}
+		case trace.MSel, trace.MSelConcurrent, trace.MSelMix:
+			mustRun = d.call.Names
+		case trace.MSelCtl, trace.MSelCtlStop:
+			if d.call.B {
+				mustRun = d.call.Names
+			}
+		}
+		if mustRun != nil {
+			for i, q := range []string{"q1", "q2", "q3", "q4"} {
+				sel := false
+				for _, n := range mustRun {
+					if n == q {
+						sel = true
+					}
+				}
+				if !sel {
+					continue
+				}
+				outs := []int64{d.resp.Out1, d.resp.Out2, d.resp.Out3, d.resp.Out4}
+				if v, ok := d.res[q]; !ok || v != interface{}(d.id) || outs[i] != d.id {
+					s.find("iso", m+"/own-data-lost", fmt.Sprintf("%s: healthy request %d did not get its own value back from rule %s (result %v, Resp.Out%d=%d, err=%v): its injected data was not there for its rules", m, d.id, q, d.res, i+1, outs[i], d.err), map[string]interface{}{"call": d.call})
+					break
+				}
+			}
 		}
 	}
 	for i, o := range []int64{d.resp.Out1, d.resp.Out2, d.resp.Out3, d.resp.Out4} {
